@@ -111,6 +111,7 @@ class VSeq(Value):
         self._length = length
         self._elem = elem
         self.kind = kind
+        self.keep = None       # filtered view: closure(z3 Int) -> z3 Bool (only all()/any()/opaque use)
 
     @property
     def concrete(self):
@@ -206,6 +207,32 @@ class VDict(Value):
 
     def __repr__(self):
         return 'VDict(%s)' % (self.items if self.items is not None else 'sym')
+
+
+def subst_value(v, old, new):
+    """v[old := new] on the z3 leaves (old, new: z3 terms of the same sort)"""
+    if isinstance(new, int):
+        new = z3.IntVal(new)
+    sb = lambda t: z3.substitute(t, (old, new))      # noqa
+    if isinstance(v, VInt):
+        return VInt(sb(v.t))
+    if isinstance(v, VReal):
+        return VReal(sb(v.t))
+    if isinstance(v, VBool):
+        return VBool(sb(v.t))
+    if isinstance(v, VStr):
+        return VStr(sb(v.t), isbytes=v.isbytes)
+    if isinstance(v, VOpaque):
+        return VOpaque(sb(v.t))
+    if isinstance(v, VBlob):
+        return VBlob(sb(v.t), sb(v.len))
+    if isinstance(v, VOpt):
+        return VOpt(sb(v.isnone), subst_value(v.val, old, new))
+    if isinstance(v, VSeq):
+        if v.concrete:
+            return VSeq([subst_value(x, old, new) for x in v.items], kind=v.kind)
+        return VSeq(length=sb(v.length()), elem=lambda i, v=v: subst_value(v.elem(i), old, new), kind=v.kind)
+    return v
 
 
 class Unsupported(Exception):
